@@ -48,10 +48,112 @@ def gen_family(rng, auto, n, fresh=None):
     return members
 
 
+def cname(info):
+    """the class's __name__ (what auto_assign_tags uses and what error objects report)"""
+    return info.get('pyname') or info['name']
+
+
+SHARED_NAMES = ['Event', 'Item', 'Node', 'Member']
+
+
+def share_names(rng, members, auto):
+    """DIMENSION look-alike *names*: two or more distinct member classes get one __name__ (classes of the same name from two modules /
+    a factory; rendered through `pyname`, bound at module level under their unique names).  Only members with an explicit tag take part
+    unless the shared name is the own name of exactly one auto-tagged member, so the tags stay distinct and the family well-formed."""
+    explicit = [m for m in members if (m['info'].get('meta') or {}).get('tag')]
+    others = [m for m in members if m not in explicit]
+    group = rng.sample(explicit, rng.randint(2, len(explicit))) if len(explicit) >= 2 else list(explicit)
+    mode = rng.choice(['fresh', 'fresh', 'own', 'other'])
+    if mode == 'other' and others and group:
+        name = rng.choice(others)['info']['name']         # an auto-tagged (or untagged-explicit) member keeps its name, tagged ones copy it
+    elif mode == 'own' and len(group) >= 2:
+        name = group[0]['info']['name']
+        group = group[1:]
+    elif len(group) >= 2:
+        name = rng.choice(SHARED_NAMES)
+    else:
+        return []
+    for m in group:
+        m['info']['pyname'] = name
+    return [m['info']['name'] for m in group]
+
+
+PATH_TOPS = ['pos', 'loc', 'geo', 'info', 'meta', 'box']
+PATH_SUBS = ['x', 'y', 'v', 'inner', 'r s', 'a-b', 'Key', '0']
+
+
+def add_path_fields(rng, members, engine):
+    """DIMENSION members that keep some fields under a nested JSON path (default engine: path_field / Annotated[..., KeyPath];
+    v1: AliasPath as field specifier / inside Annotated).  The dumper assembles such a class in a separate nested mapping, the tag has to
+    be written into that one.
+    Kept out for now (genuine defects of the unchanged library, unrelated to tags):
+      * default engine: a CatchAll field captures the top-level key of a path  -> findings/v0-path-field-captured-by-catchall.py
+      * v1: two path fields below one top-level key are counted twice           -> findings/v1-aliaspath-raise-unknown-key.py
+    so path fields go to members without CatchAll (default engine) and use distinct top-level keys (v1)."""
+    touched = []
+    for m in members:
+        fields = m['info']['fields']
+        if engine == 'v0' and any(f.get('catch_all') for f in fields):
+            continue
+        if rng.random() < 0.45:
+            continue
+        cands = [f for f in fields if not f.get('catch_all') and f.get('init', True) and not f.get('factory')]
+        if not cands:
+            continue
+        tops = rng.sample(PATH_TOPS, len(PATH_TOPS))
+        shared_top = rng.random() < 0.5
+        for q_, f in enumerate(rng.sample(cands, rng.randint(1, min(2, len(cands))))):
+            top = tops[0] if (engine == 'v0' and shared_top) else tops[q_]
+            toks = [top] + [rng.choice(PATH_SUBS) + (str(q_) if engine == 'v0' and shared_top else '')
+                            for _ in range(rng.randint(1, 2))]
+            simple = all(t.isidentifier() for t in toks)
+            keys = '.'.join(toks) if simple and rng.random() < 0.6 else toks
+            if engine == 'v0':
+                style = rng.choice(['path_field', 'keypath_ann'])
+            else:
+                style = rng.choice(['aliaspath', 'aliaspath_ann'])
+            f['path'] = {'keys': keys, 'style': style}
+        touched.append(m['info']['name'])
+    return touched
+
+
+def sibling_fields(rng, members, K, before_ok=lambda m: True):
+    """DIMENSION the member classes are *also* referenced outside the Union: the container has further fields, declared before or after
+    the Union field, whose type is a member class itself (bare, Optional, list, dict value).  -> [(field name, type, member, before?)]
+    `before_ok(member)`: may a reference to this member be declared before the Union field (see run_v1)."""
+    out = []
+    for nme in rng.sample(['pre_ref', 'post_ref', 'near_ref'], rng.randint(1, 2)):
+        M = K if rng.random() < 0.6 else rng.choice(members)
+        shape = rng.choice(['bare', 'bare', 'optional', 'list', 'dictval'])
+        ft = {'bare': M, 'optional': T('optional', M), 'list': T('list', M), 'dictval': T('dict', T('str'), M)}[shape]
+        before = nme == 'pre_ref' or (nme == 'near_ref' and rng.random() < 0.5)
+        out.append((nme, ft, M, before and before_ok(M)))
+    return out
+
+
+def root_with_siblings(name, ft, meta, sibs):
+    before = [(n, t) for n, t, _m, b in sibs if b]
+    after = [(n, t) for n, t, _m, b in sibs if not b]
+    order = before + [('member_fld', ft)] + after
+    return {'k': 'cls', 'info': {'name': name, 'fields': [{'name': n} for n, _ in order], 'wizard': True, 'meta': meta or None},
+            'ftys': [[n, t] for n, t in order]}
+
+
+def _view(root_obj, skip=()):
+    """what the load-first comparison looks at: every field of the container except the named sibling fields"""
+    import dataclasses
+    return [(f.name, repr(getattr(root_obj, f.name, None))) for f in dataclasses.fields(root_obj) if f.name not in skip]
+
+
+def bind_map(built):
+    return {built.get(n): n for n in built.infos}
+
+
 def with_auto_tags(ty, auto_root):
     """documented meaning of auto_assign_tags for the model: every dataclass in a Union gets its class name as tag
     unless it declares one"""
     t = copy.deepcopy(ty)
+    tagged = {}
 
     def walk(node, in_union, auto):
         k = node['k']
@@ -59,8 +161,9 @@ def with_auto_tags(ty, auto_root):
             own = node['info'].get('meta') or {}
             if in_union and (auto or own.get('auto_assign_tags')) and not own.get('tag'):
                 own = dict(own)
-                own['tag'] = node['info']['name']
+                own['tag'] = cname(node['info'])
                 node['info']['meta'] = own
+                tagged[node['info']['name']] = own['tag']
             for _, ft in node['ftys']:
                 walk(ft, False, auto)
         elif k == 'union':
@@ -76,6 +179,23 @@ def with_auto_tags(ty, auto_root):
             for m in node.get('a', []):
                 walk(m, False, auto)
     walk(t, False, auto_root)
+
+    def spread(node):
+        # a class is one object: a member that got its tag through the Union carries it wherever else it is referenced
+        if node['k'] == 'cls':
+            nm = node['info']['name']
+            if nm in tagged and not (node['info'].get('meta') or {}).get('tag'):
+                node['info']['meta'] = dict(node['info'].get('meta') or {}, tag=tagged[nm])
+            for _, ft in node['ftys']:
+                spread(ft)
+        elif node['k'] in ('namedtuple', 'typeddict'):
+            for fld in node['fields']:
+                spread(fld[1])
+        else:
+            for m in node.get('a', []):
+                spread(m)
+    if tagged:
+        spread(t)
     return t
 
 
@@ -91,7 +211,9 @@ def run_default(ctx: C.Ctx):
     ctx.rule = ('families of 2..4 member dataclasses with identical / overlapping / own field sets × tag assignment (explicit, '
                 'auto_assign_tags, mixed) × tag_key strings incl. quotes, backslashes, braces, newlines, unicode × every rotation of the '
                 'Union argument order, scalar members and None mixed in × container position (bare, Optional, list, dict value, tuple) × '
-                'root policy (none, raise_on_unknown_json_key, CatchAll member): dump writes the tag, load(dump(k)) is K and equals k, '
+                'root policy (none, raise_on_unknown_json_key, CatchAll member) × members that share one __name__ (distinct classes, distinct tags) × '
+                'members with nested-path fields (path_field / Annotated KeyPath) × member classes also referenced by plain / Optional / list / dict '
+                'fields declared before or after the Union field: dump writes the tag, load(dump(k)) is K and equals k (the outside references too), '
                 'unassigned / missing tags raise ParseError with valid_tags; also vs the Lean model. Non-trivial = distinct (family, member, position).')
     n = ctx.quick(350, 4000)
     reqs, pend = [], []
@@ -125,8 +247,13 @@ def run_default(ctx: C.Ctx):
                 if rng.random() < 0.6:
                     m['info']['fields'].append({'name': 'rest_items', 'catch_all': True, 'dflt': ['dict'], 'factory': True})
                     m['ftys'].append(['rest_items', T('any')])
-        root = {'k': 'cls', 'info': {'name': model.fresh('R'), 'fields': [{'name': 'member_fld'}], 'wizard': True, 'meta': meta or None},
-                'ftys': [['member_fld', ft]]}
+        K = rng.choice(members)
+        # ---- further dimensions of "look-alike" and of "position": shared __name__, path fields, references outside the Union
+        dims = rng.choice([(), (), ('names',), ('paths',), ('sibs',), ('sibs',), ('names', 'sibs'), ('paths', 'sibs'), ('names', 'paths', 'sibs')])
+        shared = share_names(rng, members, auto) if 'names' in dims else []
+        pathed = add_path_fields(rng, members, 'v0') if 'paths' in dims else []
+        sibs = sibling_fields(rng, members, K) if 'sibs' in dims else []
+        root = root_with_siblings(model.fresh('R'), ft, meta, sibs)
         try:
             built = model.Built(root)
         except Exception as e:
@@ -134,19 +261,34 @@ def run_default(ctx: C.Ctx):
             ctx.notes.setdefault('build_errors', []).append(repr(e)[:300])
             continue
         try:
-            K = rng.choice(members)
+            built.bind_of = bind_map(built)
             k = gen.gen_instance(rng, K, built, use_defaults_prob=0.3)
             wrapped = {'bare': k, 'optional': k, 'list': [k, gen.gen_instance(rng, rng.choice(members), built)],
                        'dictval': {'a': k}, 'tuple': ('s', k)}[pos]
-            x = built.root(member_fld=wrapped)
+            sib_vals = {n: gen.gen_value(rng, t, built) for n, t, _m, _b in sibs}
+            x = built.root(member_fld=wrapped, **sib_vals)
             if not ctx.begin_case(i):
                 continue
             case = {'ty': root, 'member': K['info']['name'], 'pos': pos, 'inst': repr(x)[:400]}
+            if shared:
+                case['shared_name'] = shared
+            if pathed:
+                case['path_members'] = pathed
+            if sibs:
+                case['siblings'] = [(n, m['info']['name'], b) for n, _t, m, b in sibs]
             ctx.seen('tagged:' + pos, case)
+            for dname, on in (('shared-name', shared), ('path-member', K['info']['name'] in pathed), ('sibling-ref', sibs)):
+                if on:
+                    ctx.seen('tagged:dim:' + dname, case)
             src = dict(src=built.source)
             eff_key = tk or '__tag__'
             own = K['info'].get('meta') or {}
-            exp_tag = own.get('tag') or (K['info']['name'] if auto else None)
+            exp_tag = own.get('tag') or (cname(K['info']) if auto else None)
+            # SIBLING_CAPTURE_SHAPE: genuine defect of the unchanged library (findings/auto-tag-plain-reference-before-union-captured.py):
+            # on a load before any dump, a plain reference declared before the Union to an auto-tagged member with a CatchAll field
+            # captures the tag key.  Those sibling fields are left out of the load-first comparison; the Union field never is.
+            skip_sibs = {n for n, _t, m, b in sibs if b and auto and not (m['info'].get('meta') or {}).get('tag')
+                         and any(f.get('catch_all') for f in m['info']['fields'])}
             standalone_first = rng.random() < 0.3
             case['standalone_first'] = standalone_first
             try:
@@ -171,6 +313,11 @@ def run_default(ctx: C.Ctx):
                     ctx.fail('tagged:roundtrip', case, f'load(dump(k)) gave {yk!r}, expected {k!r}', detail=src)
                 if policy == 'catchall' and hasattr(yk, 'rest_items') and eff_key in (yk.rest_items or {}):
                     ctx.fail('tagged:captured', case, f'the tag key was captured by CatchAll: {yk.rest_items!r}', detail=src)
+                for sn, sv in sib_vals.items():
+                    # a member class referenced outside the Union is the same class: it loads its own dump there as well
+                    if not ref.same_typed(getattr(out[1], sn), sv):
+                        ctx.fail('tagged:sibling', case, f'field {sn} (a member class referenced outside the Union): load(dump(v)) gave '
+                                 f'{getattr(out[1], sn)!r}, expected {sv!r}', detail=src)
             # ---- the same document loaded by freshly defined classes that have never dumped (load first)
             built2 = model.Built(root)
             try:
@@ -180,7 +327,7 @@ def run_default(ctx: C.Ctx):
                     key = 'auto-tag-load-first-unknown-key' if (auto and policy == 'raise' and isinstance(outf[1], UnknownKeysError)) else None
                     ctx.fail('tagged:load-first', case, f'load of a dumped document by classes that never dumped raised '
                              f'{type(outf[1]).__name__}: {str(outf[1])[:300]}', key=key, detail=src)
-                elif out[0] == 'ok' and repr(outf[1]) != repr(out[1]):
+                elif out[0] == 'ok' and _view(outf[1], skip_sibs) != _view(out[1], skip_sibs):
                     key = 'auto-tag-load-first-captured' if (auto and policy == 'catchall') else None
                     ctx.fail('tagged:load-first', case, f'load-first gave {outf[1]!r}, after a dump {out[1]!r}', key=key, detail=src)
             finally:
@@ -188,8 +335,10 @@ def run_default(ctx: C.Ctx):
             st = model.StdTables()
             st.add_json(jd)
             mty = with_auto_tags(root, auto)
-            reqs.append({'op': 'load', 'ty': model.enc_ty(mty), 'doc': model.enc_j(jd), 'std': st.build()})
-            pend.append((case, out, built))
+            in_model = not pathed          # the class model has no nested-path fields: those cases are carried by the oracle alone
+            if in_model:
+                reqs.append({'op': 'load', 'ty': model.enc_ty(mty), 'doc': model.enc_j(jd), 'std': st.build()})
+                pend.append((case, out, built))
             # ---- bad / missing tag
             bad = copy.deepcopy(jd)
             tgt = {'bare': lambda z: z, 'optional': lambda z: z, 'list': lambda z: z[0], 'dictval': lambda z: z['a'], 'tuple': lambda z: z[1]}[pos](bad['memberFld'])
@@ -201,7 +350,7 @@ def run_default(ctx: C.Ctx):
             out2 = load_outcome(lambda: fromdict(built.root, copy.deepcopy(bad)))
             case2 = dict(case, variant=variant, doc=repr(bad)[:400])
             ctx.seen('tagged:bad-' + variant, case2)
-            assigned = [(m['info'].get('meta') or {}).get('tag') or (m['info']['name'] if auto else None) for m in members]
+            assigned = [(m['info'].get('meta') or {}).get('tag') or (cname(m['info']) if auto else None) for m in members]
             if variant == 'unassigned' and tgt[eff_key] in assigned:
                 pass
             elif out2[0] == 'ok':
@@ -212,10 +361,11 @@ def run_default(ctx: C.Ctx):
                 vt = out2[1].kwargs.get('valid_tags')
                 if vt is None or sorted(vt) != sorted(a for a in assigned if a):
                     ctx.fail('tagged:bad-unassigned', case2, f'ParseError valid_tags {vt!r}, assigned tags {sorted(a for a in assigned if a)!r}', detail=src)
-            st2 = model.StdTables()
-            st2.add_json(bad)
-            reqs.append({'op': 'load', 'ty': model.enc_ty(mty), 'doc': model.enc_j(bad), 'std': st2.build()})
-            pend.append((case2, out2, built))
+            if in_model:
+                st2 = model.StdTables()
+                st2.add_json(bad)
+                reqs.append({'op': 'load', 'ty': model.enc_ty(mty), 'doc': model.enc_j(bad), 'std': st2.build()})
+                pend.append((case2, out2, built))
         finally:
             built.close()
     if ctx.model_available:
@@ -238,7 +388,8 @@ def run_v1(ctx: C.Ctx):
     ctx.rule = ('v1 engine (root Meta v1=True, dump keys as field names): the same families of 2..4 look-alike member dataclasses × tag assignment '
                 '(explicit, auto_assign_tags, mixed) × tag_key strings × rotations of the Union arguments with scalar members and None mixed in × '
                 'container position × root policy (none, v1_on_unknown_key=RAISE cascading to the members, CatchAll member with default None / without '
-                'default) × members that mirror their tag in an init=False attribute named like the tag key: dump writes the tag, load(dump(k)) is K and '
+                'default) × members that mirror their tag in an init=False attribute named like the tag key × members that share one __name__ × members '
+                'with AliasPath fields × member classes also referenced outside the Union: dump writes the tag, load(dump(k)) is K and '
                 'equals k, the tag key is neither reported unknown nor captured while a genuinely unknown key still is, unassigned tags raise ParseError '
                 'with valid_tags, a missing tag raises ParseError unless a str / bool member coerces the dict; also vs the Lean model of the v1 engine. '
                 'Non-trivial = distinct (family, member, position).')
@@ -290,8 +441,16 @@ def run_v1(ctx: C.Ctx):
                 m['info']['fields'].append({'name': eff_key, 'dflt': ['lit', tag], 'factory': False, 'init': False})
                 m['ftys'].append([eff_key, T('str')])
                 mirror.append(m['info']['name'])
-        root = {'k': 'cls', 'info': {'name': nm('R'), 'fields': [{'name': 'member_fld'}], 'wizard': True, 'meta': meta},
-                'ftys': [['member_fld', ft]]}
+        K = rng.choice(members)
+        # ---- further dimensions of "look-alike" and of "position": shared __name__, path fields, references outside the Union
+        dims = rng.choice([(), (), ('names',), ('names',), ('paths',), ('sibs',), ('names', 'sibs'), ('paths', 'sibs'), ('names', 'paths', 'sibs')])
+        shared = share_names(rng, members, auto) if 'names' in dims else []
+        pathed = add_path_fields(rng, members, 'v1') if 'paths' in dims else []
+        # kept out for now (genuine violation on the unchanged tree, findings/v1-auto-tag-plain-reference-before-union.py): the per-class
+        # v1 load function of an auto-tagged member that is referenced BEFORE the Union field is generated without its tag; such
+        # references are declared after the Union field here (explicitly tagged members are referenced on either side)
+        sibs = sibling_fields(rng, members, K, before_ok=lambda m: bool((m['info'].get('meta') or {}).get('tag'))) if 'sibs' in dims else []
+        root = root_with_siblings(nm('R'), ft, meta, sibs)
         try:
             built = model.Built(root)
         except Exception as e:
@@ -299,24 +458,43 @@ def run_v1(ctx: C.Ctx):
             ctx.notes.setdefault('build_errors', []).append(repr(e)[:300])
             continue
         try:
-            K = rng.choice(members)
+            built.bind_of = bind_map(built)
             k = gen.gen_instance(rng, K, built, use_defaults_prob=0.3)
             k2 = gen.gen_instance(rng, rng.choice(members), built)
-            for z in (k, k2):
-                cf = next((f for f in built.infos[type(z).__name__]['info']['fields'] if f.get('catch_all')), None)
-                if cf is not None and cf.get('dflt') is not None and z.rest_items == {}:
-                    z.rest_items = None      # what a load gives when nothing is captured
+            sib_vals = {n: gen.gen_value(rng, t, built) for n, t, _m, _b in sibs}
+
+            def norm(z):
+                if isinstance(z, list):
+                    for e in z:
+                        norm(e)
+                elif isinstance(z, dict):
+                    for e in z.values():
+                        norm(e)
+                elif type(z) in built.bind_of:
+                    cf = next((f for f in built.infos[built.bind_of[type(z)]]['info']['fields'] if f.get('catch_all')), None)
+                    if cf is not None and cf.get('dflt') is not None and z.rest_items == {}:
+                        z.rest_items = None      # what a load gives when nothing is captured
+            norm([k, k2, sib_vals])
             wrapped = {'bare': k, 'optional': k, 'list': [k, k2], 'dictval': {'a': k}, 'tuple': ('s', k)}[pos]
-            x = built.root(member_fld=wrapped)
+            x = built.root(member_fld=wrapped, **sib_vals)
             variant = rng.choice(['unassigned', 'missing', 'extra-key'])
             bad_tag_pick = rng.randint(0, 4)
             if not ctx.begin_case(i):
                 continue
             case = {'ty': root, 'member': K['info']['name'], 'pos': pos, 'inst': repr(x)[:400], 'engine': 'v1', 'policy': policy, 'mirror': mirror}
+            if shared:
+                case['shared_name'] = shared
+            if pathed:
+                case['path_members'] = pathed
+            if sibs:
+                case['siblings'] = [(n, m['info']['name'], b) for n, _t, m, b in sibs]
             ctx.seen('tagged:v1:' + pos, case)
+            for dname, on in (('shared-name', shared), ('path-member', K['info']['name'] in pathed), ('sibling-ref', sibs)):
+                if on:
+                    ctx.seen('tagged:v1:dim:' + dname, case)
             src = dict(src=built.source)
             own = K['info'].get('meta') or {}
-            exp_tag = own.get('tag') or (K['info']['name'] if auto else None)
+            exp_tag = own.get('tag') or (cname(K['info']) if auto else None)
             try:
                 d = asdict(x)
             except Exception as e:
@@ -338,7 +516,13 @@ def run_v1(ctx: C.Ctx):
                 if has_ca and isinstance(yk.rest_items, dict) and eff_key in yk.rest_items and eff_key not in (k.rest_items or {}):
                     ctx.fail('tagged:v1:captured', case, f'the tag key was captured by CatchAll: {yk.rest_items!r}', detail=src)
                 elif type(yk) is not type(k) or not ref.same_typed(yk, k):
-                    ctx.fail('tagged:v1:roundtrip', case, f'load(dump(k)) gave {yk!r}, expected {k!r}', detail=src)
+                    which = '' if type(yk) is type(k) else f' (class {built.bind_of.get(type(yk), type(yk))} instead of {built.bind_of.get(type(k))})'
+                    ctx.fail('tagged:v1:roundtrip', case, f'load(dump(k)) gave {yk!r}{which}, expected {k!r}', detail=src)
+                for sn, sv in sib_vals.items():
+                    # a member class referenced outside the Union is the same class: it loads its own dump there as well
+                    if not ref.same_typed(getattr(out[1], sn), sv):
+                        ctx.fail('tagged:v1:sibling', case, f'field {sn} (a member class referenced outside the Union): load(dump(v)) gave '
+                                 f'{getattr(out[1], sn)!r}, expected {sv!r}', detail=src)
             # ---- the same document loaded by freshly defined classes that have never dumped (load first)
             built2 = model.Built(root)
             try:
@@ -354,12 +538,14 @@ def run_v1(ctx: C.Ctx):
             st = model.StdTables()
             st.add_json(jd)
             mty = with_auto_tags(root, auto)
-            reqs.append({'op': 'loadv1', 'ty': model.enc_ty(mty), 'doc': model.enc_j(jd), 'std': st.build()})
-            pend.append((case, out, built))
+            in_model = not pathed          # the class model has no nested-path fields: those cases are carried by the oracle alone
+            if in_model:
+                reqs.append({'op': 'loadv1', 'ty': model.enc_ty(mty), 'doc': model.enc_j(jd), 'std': st.build()})
+                pend.append((case, out, built))
             # ---- bad / missing tag, genuinely unknown key next to the tag
             bad = copy.deepcopy(jd)
             tgt = _AT[pos](bad['member_fld'])
-            assigned = [(m['info'].get('meta') or {}).get('tag') or (m['info']['name'] if auto else None) for m in members]
+            assigned = [(m['info'].get('meta') or {}).get('tag') or (cname(m['info']) if auto else None) for m in members]
             if variant == 'unassigned':
                 tgt[eff_key] = ['nope', 'Zzz', '', exp_tag + 'x', exp_tag.lower() + '_'][bad_tag_pick]
             elif variant == 'missing':
@@ -373,9 +559,9 @@ def run_v1(ctx: C.Ctx):
             if variant == 'extra-key':
                 if policy == 'raise':
                     if not (out2[0] == 'err' and isinstance(out2[1], UnknownKeysError) and v1streams.unknown_keys_of(out2[1]) == ['zzz_unknown']
-                            and out2[1].class_name == K['info']['name']):
+                            and out2[1].class_name in (cname(K['info']), type(k).__qualname__)):
                         got = (type(out2[1]).__name__, getattr(out2[1], 'unknown_keys', None), getattr(out2[1], 'class_name', None)) if out2[0] == 'err' else out2[1]
-                        ctx.fail('tagged:v1:bad-extra-key', case2, f'RAISE: expected UnknownKeysError naming exactly zzz_unknown for {K["info"]["name"]}, got {got!r}'[:600], detail=src)
+                        ctx.fail('tagged:v1:bad-extra-key', case2, f'RAISE: expected UnknownKeysError naming exactly zzz_unknown for {cname(K["info"])}, got {got!r}'[:600], detail=src)
                 elif out2[0] == 'err':
                     ctx.fail('tagged:v1:bad-extra-key', case2, f'an unknown key next to the tag made the load fail: {type(out2[1]).__name__}: {str(out2[1])[:200]}', detail=src)
                 elif has_ca:
@@ -396,10 +582,11 @@ def run_v1(ctx: C.Ctx):
                 vt = out2[1].kwargs.get('valid_tags')
                 if vt is None or sorted(vt) != sorted(a for a in assigned if a):
                     ctx.fail('tagged:v1:bad-unassigned', case2, f'ParseError valid_tags {vt!r}, assigned tags {sorted(a for a in assigned if a)!r}', detail=src)
-            st2 = model.StdTables()
-            st2.add_json(bad)
-            reqs.append({'op': 'loadv1', 'ty': model.enc_ty(mty), 'doc': model.enc_j(bad), 'std': st2.build()})
-            pend.append((case2, out2, built))
+            if in_model:
+                st2 = model.StdTables()
+                st2.add_json(bad)
+                reqs.append({'op': 'loadv1', 'ty': model.enc_ty(mty), 'doc': model.enc_j(bad), 'std': st2.build()})
+                pend.append((case2, out2, built))
         finally:
             built.close()
     # ---- a tagged class without any constructor field, loaded directly from a document that holds just its tag
